@@ -174,45 +174,61 @@ structure RecvParams where
   seqno : Option Nat
 deriving Repr, DecidableEq
 
+/-- the KID-context and KID checks of `unprotect` (oscore.py:1268-1276): a field that is present
+must equal the recipient's own value; an absent field is not checked -/
+def idsAcceptable (B : Ctx) (u : Unprot) : Bool :=
+  (match u.kidContext with
+   | some c => some c == B.idContext      -- else "Sender ID context does not match"
+   | none => true) &&
+  (match u.kid with
+   | some k => k == B.recipientId         -- else "Sender ID does not match"
+   | none => true)
+
+/-- which Partial IV and generator id make the nonce, and which request identifiers go into
+the AAD -/
+structure Selected where
+  piv : Bytes
+  gen : Bytes
+  seqno : Option Nat
+  rid : ReqId
+deriving Repr, DecidableEq
+
+/-- oscore.py:1278-1306.  (`rid` is present exactly for responses — asserted before — so the
+branches on `is_response` are written as branches on `rid`.) -/
+def selectPiv (B : Ctx) (rid : Option ReqId) (code : Nat) (u : Unprot) : Except Err Selected :=
+  match u.piv, rid with
+  | none, some r => .ok { piv := r.piv, gen := r.kid, seqno := none, rid := r }
+  | none, none => .error .protectionInvalid           -- "No sequence number provided in request"
+  | some piv, some r =>
+    .ok { piv, gen := B.recipientId, seqno := some (beToNat piv), rid := r }
+  | some piv, none =>
+    if code = 2 ∨ code = 5 then
+      .ok { piv, gen := B.recipientId, seqno := some (beToNat piv),
+            rid := { kid := B.recipientId, piv, canReuse := true, style := code } }
+    else .error .valueError                           -- `CodeStyle.from_request`
+
 /-- `unprotect` up to the decryption call: option decompression, KID-context and KID checks,
 Partial IV / request identifier selection, AAD and nonce.  (`tagBytes` is `alg_aead.tag_bytes`
 for the "Ciphertext too short" check.) -/
 def recvParams (tagBytes : Nat) (B : Ctx) (rid : Option ReqId) (o : Msg) : Except Err RecvParams :=
-  let isResp := isResponse o.code
   -- `assert (request_id is not None) == protected_message.code.is_response()`
-  if rid.isSome != isResp then .error .outOfModel else
+  if rid.isSome != isResponse o.code then .error .outOfModel else
   match findOpt 9 o.opts with
   | none => .error .notProtected
   | some option =>
     match uncompress option with
     | none => .error .decodeError
     | some u =>
-      if (match u.kidContext with | some c => some c != B.idContext | none => false) then
-        .error .protectionInvalid                       -- "Sender ID context does not match"
-      else if (match u.kid with | some k => k != B.recipientId | none => false) then
-        .error .protectionInvalid                       -- "Sender ID does not match"
-      else
-        let sel : Except Err (Bytes × Bytes × Option Nat × Option ReqId) :=
-          match u.piv with
-          | none =>
-            match rid with
-            | some r => .ok (r.piv, r.kid, none, some r)
-            | none => .error .protectionInvalid          -- "No sequence number provided in request"
-          | some piv =>
-            if isResp then .ok (piv, B.recipientId, some (beToNat piv), rid)
-            else if o.code = 2 ∨ o.code = 5 then
-              .ok (piv, B.recipientId, some (beToNat piv),
-                   some { kid := B.recipientId, piv, canReuse := true, style := o.code })
-            else .error .valueError                     -- `CodeStyle.from_request`
-        match sel with
-        | .error e => .error e
-        | .ok (_, _, _, none) => .error .outOfModel        -- unreachable
-        | .ok (piv, gen, seqno, some r) =>
-          if u.group then .error .decodeError else       -- group message, non-group context
-          if o.payload.length < tagBytes + 1 then .error .protectionInvalid else
-          match constructNonce B.ivBytes B.commonIv piv gen with
-          | none => .error .assertion
-          | some nonce => .ok { nonce, aad := aad B.algValue r.kid r.piv, rid := r, seqno }
+      if !idsAcceptable B u then .error .protectionInvalid else
+      match selectPiv B rid o.code u with
+      | .error e => .error e
+      | .ok s =>
+        if u.group then .error .decodeError else       -- group message, non-group context
+        if o.payload.length < tagBytes + 1 then .error .protectionInvalid else
+        match constructNonce B.ivBytes B.commonIv s.piv s.gen with
+        | none => .error .assertion
+        | some nonce =>
+          .ok { nonce, aad := aad B.algValue s.rid.kid s.rid.piv, rid := s.rid, seqno := s.seqno }
 
 /-- the unprotected message as the caller sees it: `opt.observe` is reported separately (it can
 be −1, which has no encoding), `opts` are all other options -/
